@@ -34,6 +34,7 @@ def job_src(tid, src, cfg, evm="cancun", scale=1):
     timeout = 30000 * scale
     replay = {"kind": "src", "tid": tid, "src": src, "cfg": cfg, "evm": evm}
     env = Mx.Env()
+    env.reentrancy_havoc = True  # persistent state after an outgoing (non-static) call is arbitrary: the callee may re-enter
     try:
         spec = SS.Interp(src, T.settings_for(cfg, evm), env).run_contract()
     except SS.Unsupported as e:
